@@ -244,6 +244,12 @@ def run_property(prop, tier, seed, workdir, evid_path, t0, only):
             m = load_unit(un)
             names = set(m.PROPERTIES.get(prop, []))
             sel = [mu['name'] for mu in getattr(m, 'MUTANTS', []) if set(mu['groups']) & names]
+            # mutants of thorough-only groups (10-60 min per case) are not re-run inside the check: tools/mutants.py <unit> <name> (results in DESIGN 13.12)
+            slow_groups = set(g.name for g in m.GROUPS if g.tier == 'thorough')
+            if not os.environ.get('VERIF_ALL_MUTANTS'):
+                slow = [mu['name'] for mu in getattr(m, 'MUTANTS', []) if mu['name'] in sel and set(mu['groups']) & slow_groups]
+                sel = [x for x in sel if x not in slow]
+                kill += [dict(unit=un, mutant=x, result='not-run-in-check (thorough-only group; see DESIGN 13.12)') for x in slow]
             if sel:
                 print('[%s] kill matrix of unit %s: %d mutants' % (prop, un, len(sel)))
                 kill += [dict(unit=un, **r) for r in mutants.run_mutants(un, sel, jobs=int(os.environ.get('VERIF_JOBS', '16')))]
